@@ -37,11 +37,11 @@ EXTENDS Naturals, Sequences, FiniteSets, SequencesExt, FiniteSetsExt, TLC
 Default == "default"
 
 FoldTable ==
-  [t \in {"a", "A", "b", "user-accounts", "User Accounts", "userAccounts", "useraccounts", "request", "close", "config",
+  [t \in {"a", "A", "b", "user-accounts", "User Accounts", "userAccounts", "useraccounts", "user_accounts", "UserAccounts", "request", "close", "config",
           "Billing/Invoices", "billing-invoices", "v1.users", "v1-users", "R&D", "r-d", "ops:admin", "ops admin"} |->
      CASE t \in {"a", "A"} -> "a"
        [] t = "b" -> "b"
-       [] t \in {"user-accounts", "User Accounts", "userAccounts", "useraccounts"} -> "useraccounts"
+       [] t \in {"user-accounts", "User Accounts", "userAccounts", "useraccounts", "user_accounts", "UserAccounts"} -> "useraccounts"
        [] t \in {"Billing/Invoices", "billing-invoices"} -> "billinginvoices"
        [] t \in {"v1.users", "v1-users"} -> "v1users"
        [] t \in {"R&D", "r-d"} -> "rd"
